@@ -67,7 +67,8 @@ class Pipe:
             return b""
         k = n
         if self.rng is not None:
-            k = min(n, self.rng.choice([1, 2, 3, 9, 64, 1 << 20]))
+            # big reads are cut into a few pieces, small ones down to single bytes
+            k = min(n, self.rng.choice([1, 2, 3, 9, 64, 1 << 20] if n <= 256 else [64, 1000, 4096, 1 << 20]))
         r = bytes(self.buf[:k])
         del self.buf[:k]
         self.total_read += len(r)
